@@ -113,14 +113,30 @@ class Contracts:
         if split:
             cases = [(f"{split}=+1", {split: 1}), (f"{split}=-1", {split: -1})]
         out = []
+        # boolean case expressions (source text over the parameter names): split True / False
+        bexprs = []
+        for src in meta.get("cases", []):
+            lw = T.Lower(T.Scope(self.program, cfi.module, cfi.cls, cfi), set(cl.params))
+            bexprs.append((src, T.norm(lw.e(ast.parse(src, mode="eval").body))))
         for name, sub in cases:
             def rep(t, sub=sub):
                 if t[0] == 'attr' and t[2] in sub:
                     return T.C(sub[t[2]])
                 return None
-            c = T.canonical(T.replace(cfull, rep) if sub else cfull)
-            r = T.canonical(T.replace(rfull, rep) if sub else rfull)
-            out.append((name, c, r))
+            c0 = T.norm(T.replace(cfull, rep) if sub else cfull)
+            r0 = T.norm(T.replace(rfull, rep) if sub else rfull)
+            if not bexprs:
+                out.append((name, T.canon(T.debruijn(c0)), T.canon(T.debruijn(r0))))
+                continue
+            import itertools as _it
+            for vals in _it.product([True, False], repeat=len(bexprs)):
+                def rep2(t, vals=vals):
+                    for (src, e), v in zip(bexprs, vals):
+                        if t == e:
+                            return T.C(v)
+                    return None
+                nm = name + " " + ", ".join(f"[{src}]={v}" for (src, _), v in zip(bexprs, vals))
+                out.append((nm.strip(), T.canonical(T.replace(c0, rep2)), T.canonical(T.replace(r0, rep2))))
         return out, cfi, rfi, meta
 
     def check(self, qualname, variant=None):
@@ -130,7 +146,13 @@ class Contracts:
             return Result("inconclusive", str(e), key=f"E2.equiv:{qualname}:params")
         alldiffs = []
         inconclusive = []
+        self.last_binds = {}
         for name, c, r in cases:
+            if T.has_holes(r):
+                binds = {}
+                r = T.fill_holes(c, r, binds)
+                for k, v in binds.items():
+                    self.last_binds.setdefault(k, []).extend(v)
             if c == r:
                 continue
             ops = T.has_opaque(c)
